@@ -183,7 +183,16 @@ struct ConvRun : Reporter {
         {
             const i128 xi = (i128)x;
             i128 t;
-            if (I::CUNS) {
+            if (I::CUNS && I::CHI() < ((i128)1 << 31)) {
+                // unsigned intermediate narrower than int: integral promotion breaks modular arithmetic, so
+                // the displacement itself (KD <= 0 means a non-negative displacement is subtracted) and every
+                // partial result must be representable
+                if (I::KD() > 0) { ++st.skip_mid; return; }
+                const i128 xs = xi * I::KX();
+                if (xs > I::CHI() || -I::KD() > I::CHI()) { ++st.skip_mid; return; }
+                t = xs + I::KD();
+                if (t < 0) { ++st.skip_mid; return; }
+            } else if (I::CUNS) {
                 t = xi * I::KX() + I::KD();      // modular arithmetic is exact iff the true t fits
                 if (t < 0 || t > I::CHI()) { ++st.skip_mid; return; }
             } else {
